@@ -16,6 +16,8 @@ import (
 	"time"
 
 	"github.com/shopspring/decimal"
+	"google.golang.org/protobuf/encoding/prototext"
+	"google.golang.org/protobuf/proto"
 	"google.golang.org/protobuf/reflect/protoreflect"
 	"google.golang.org/protobuf/types/dynamicpb"
 )
@@ -37,6 +39,7 @@ type wireCase struct {
 	Val    wVal    `json:"val"`
 	Enc    *wJ     `json:"enc"`
 	Doc    *wJ     `json:"doc"`
+	Canon  *wJ     `json:"canon"` // spell: the canonical document of the same value
 	Ws     string  `json:"ws"`
 	Sp     string  `json:"sp"`
 	Form   string  `json:"form"` // spelling: the leaf form used for the focus kind
@@ -580,6 +583,22 @@ func wireRunDoc(out *Out, c *wireCase, ws *wireSchema) {
 		want := wxProjMsg(&c.Sch, wantMsg)
 		if !wxValEqual(&want, &got) {
 			report("spelling-value|"+c.Kind+"|form="+c.Form+"|"+slot+"|sp="+label, "document %s (spelling %s) denotes %s but the decoder stored %s", wxClip(text), label, wxValString(&want), wxValString(&got))
+			return
+		}
+		// "produce the same message as the canonical spelling": the message itself, field presence included
+		if c.Mode == "spell" && c.Canon != nil {
+			ctext, err := wxSerialise(c.Canon, "none")
+			if err != nil {
+				out.D("wire|harness-serialise|"+c.slot(), "%v", err)
+				return
+			}
+			cmsg := dynamicpb.NewMessage(ws.root)
+			if err := ws.codec.JSONToProto([]byte(ctext), cmsg); err != nil {
+				return // the canonical document is C01's business
+			}
+			if !proto.Equal(cmsg, msg) {
+				report("spelling-message|"+c.Kind+"|form="+c.Form+"|"+slot+"|sp="+label, "document %s (spelling %s) gives the message {%s}, the canonical spelling %s gives {%s}", wxClip(text), label, prototext.MarshalOptions{}.Format(msg), wxClip(ctext), prototext.MarshalOptions{}.Format(cmsg))
+			}
 		}
 	case "reject":
 		if accepted {
